@@ -18,7 +18,7 @@ PROPERTIES = {
     },
     "C03": {
         "contracts": [bases.SetItem, indexing.MaybeCastType, (bases.Accessors, r"write|put|setitem"), (bases.ItemForwarding, r"^set"),
-                      (bases.GetIndices, r"^r[01]-"), bases.SetItemNative],
+                      (bases.GetIndices, r"^r[01]-"), bases.SetItemNative, bases.SetItemBroadcast, bases.TakeBroadcastNative],
         "level": "proof",
         "min_obligations": 1500,
     },
